@@ -26,18 +26,22 @@ package storage
 //@   ensures [C06.footer_last_offset] err == nil ==> len(data) >= 16 && result0 == int64(be64(data, 4)) && data[12] == 'E' && data[13] == 'N' && data[14] == 'D' && data[15] == '!'
 
 // ---- RestoreFromS3 ----
-// gmiss: the index download of the segment being examined failed with "not found" (set at the errors.Is call of that iteration).
+// gmiss: the index download of the segment being examined failed with "not found" (set at the errors.Is call of that iteration);
+// gother: an index download failed with any other error; gcommit: the final critical section was entered.
 //@ func (l *PartitionLog) RestoreFromS3
 //@   requires !isNilIface(l.s3) && l.indexEntries != nil
 //@   ghost gmiss bool = false
 //@   ghost gcommit bool = false
+//@   ghost gother bool = false
 //@   loop 1 invariant -1 <= rangeindex && rangeindex < len(objects)
-//@   loop 2 modifies gmiss
-//@   loop 2 invariant -1 <= rangeindex && rangeindex < len(found) && indexByBase != nil && l.nextOffset == old(l.nextOffset) && sameSlice(l.segments, old(l.segments))
+//@   loop 2 modifies gmiss, gother
+//@   loop 2 invariant -1 <= rangeindex && rangeindex < len(found) && indexByBase != nil && l.nextOffset == old(l.nextOffset) && sameSlice(l.segments, old(l.segments)) && !gother
 //@   at indexKey#1 before set gmiss = false
 //@   at Is#1 after set gmiss = ret0
+//@   at Is#1 after set gother = !ret0
 //@   at Lock#1 before set gcommit = true
 //@   ensures [C06.missing_index_never_blocks_restore] err != nil ==> !gmiss
+//@   ensures [C06.other_index_errors_fail_the_restore] err == nil ==> !gother
 //@   ensures [C06.failed_restore_changes_nothing] err != nil ==> result0 == -1 && !gcommit && l.nextOffset == old(l.nextOffset) && sameSlice(l.segments, old(l.segments))
 //@   ensures [C06.nothing_restored_changes_nothing] err == nil && !gcommit ==> result0 == -1 && l.nextOffset == old(l.nextOffset) && sameSlice(l.segments, old(l.segments))
 //@   ensures [C06.next_offset_never_rewinds] err == nil && gcommit && result0 < 9223372036854775807 ==> l.nextOffset >= old(l.nextOffset)
